@@ -1,7 +1,7 @@
 (* C11 -- any text can be passed as a literal argument through the documented escapes.
    GENERATED from Properties/src/C11.props by tools/mkprops.py; property theorems only. *)
 From SP Require Import Model.Syntax Model.Scanner.
-From SP Require Import Proofs.SyntaxP.
+From SP Require Import Proofs.SyntaxP Proofs.ArgP.
 
 (* for EVERY string -- any mixture of backslashes, unbalanced braces, colons,
    pipes, newlines, tabs and multi-byte characters -- the decoder applied to the
@@ -24,6 +24,154 @@ Proof. exact esc_no_raw_special. Qed.
 Check C11_escaped_text_has_no_raw_special :
   forall (s : str), no_raw_special (esc s) = true.
 Print Assumptions C11_escaped_text_has_no_raw_special.
+
+(* at the level of the grammar regenerated from template.pest: the simple_arg rule
+   applied to the escaped spelling of ANY text, followed by the end of the argument,
+   yields exactly one token whose text is that spelling *)
+Theorem C11_simple_arg_reads_the_escaped_text :
+  forall (s rest : str), stops rest ->
+  run r_simple_arg false (esc s ++ rest) = Some (esc s, [Node (Some R_simple_arg) (esc s) []], rest)
+  /\ process_arg (esc s) = s.
+Proof. exact simple_arg_reads_escaped. Qed.
+Check C11_simple_arg_reads_the_escaped_text :
+  forall (s rest : str), stops rest ->
+  run r_simple_arg false (esc s ++ rest) = Some (esc s, [Node (Some R_simple_arg) (esc s) []], rest)
+  /\ process_arg (esc s) = s.
+Print Assumptions C11_simple_arg_reads_the_escaped_text.
+
+(* whole blocks, for EVERY text s: the parser returns the operation carrying exactly s *)
+Theorem C11_append :
+  forall (s : str), parse_template ([123; 97; 112; 112; 101; 110; 100; 58] ++ esc s ++ [125])%N = Ok ([Append s], false).
+Proof. exact append_block. Qed.
+Check C11_append :
+  forall (s : str), parse_template ([123; 97; 112; 112; 101; 110; 100; 58] ++ esc s ++ [125])%N = Ok ([Append s], false).
+Print Assumptions C11_append.
+
+Theorem C11_prepend :
+  forall (s : str), parse_template ([123; 112; 114; 101; 112; 101; 110; 100; 58] ++ esc s ++ [125])%N = Ok ([Prepend s], false).
+Proof. exact prepend_block. Qed.
+Check C11_prepend :
+  forall (s : str), parse_template ([123; 112; 114; 101; 112; 101; 110; 100; 58] ++ esc s ++ [125])%N = Ok ([Prepend s], false).
+Print Assumptions C11_prepend.
+
+Theorem C11_surround :
+  forall (s : str), parse_template ([123; 115; 117; 114; 114; 111; 117; 110; 100; 58] ++ esc s ++ [125])%N = Ok ([Surround s], false).
+Proof. exact surround_block. Qed.
+Check C11_surround :
+  forall (s : str), parse_template ([123; 115; 117; 114; 114; 111; 117; 110; 100; 58] ++ esc s ++ [125])%N = Ok ([Surround s], false).
+Print Assumptions C11_surround.
+
+Theorem C11_quote :
+  forall (s : str), parse_template ([123; 113; 117; 111; 116; 101; 58] ++ esc s ++ [125])%N = Ok ([Surround s], false).
+Proof. exact quote_block. Qed.
+Check C11_quote :
+  forall (s : str), parse_template ([123; 113; 117; 111; 116; 101; 58] ++ esc s ++ [125])%N = Ok ([Surround s], false).
+Print Assumptions C11_quote.
+
+Theorem C11_join :
+  forall (s : str), parse_template ([123; 106; 111; 105; 110; 58] ++ esc s ++ [125])%N = Ok ([Join s], false).
+Proof. exact join_block. Qed.
+Check C11_join :
+  forall (s : str), parse_template ([123; 106; 111; 105; 110; 58] ++ esc s ++ [125])%N = Ok ([Join s], false).
+Print Assumptions C11_join.
+
+(* {split:ESC(s):..} *)
+Theorem C11_split :
+  forall (s : str), parse_template ([123; 115; 112; 108; 105; 116; 58] ++ esc s ++ [58; 46; 46; 125])%N = Ok ([Split s (Range None None false)], false).
+Proof. exact split_block. Qed.
+Check C11_split :
+  forall (s : str), parse_template ([123; 115; 112; 108; 105; 116; 58] ++ esc s ++ [58; 46; 46; 125])%N = Ok ([Split s (Range None None false)], false).
+Print Assumptions C11_split.
+
+(* {trim:ESC(s):both} -- written with the direction, so that a set spelled `left` is still a set *)
+Theorem C11_trim :
+  forall (s : str), parse_template ([123; 116; 114; 105; 109; 58] ++ esc s ++ [58; 98; 111; 116; 104; 125])%N = Ok ([Trim s TBoth], false).
+Proof. exact trim_block. Qed.
+Check C11_trim :
+  forall (s : str), parse_template ([123; 116; 114; 105; 109; 58] ++ esc s ++ [58; 98; 111; 116; 104; 125])%N = Ok ([Trim s TBoth], false).
+Print Assumptions C11_trim.
+
+(* {pad:3:ESC(c):left} for every pad character c *)
+Theorem C11_pad :
+  forall (c : N), parse_template ([123; 112; 97; 100; 58; 51; 58] ++ esc [c] ++ [58; 108; 101; 102; 116; 125])%N = Ok ([Pad 3 c PLeft], false).
+Proof. exact pad_block. Qed.
+Check C11_pad :
+  forall (c : N), parse_template ([123; 112; 97; 100; 58; 51; 58] ++ esc [c] ++ [58; 108; 101; 102; 116; 125])%N = Ok ([Pad 3 c PLeft], false).
+Print Assumptions C11_pad.
+
+(* the same inside map:{...} (the map_* rule family) *)
+Theorem C11_append_in_map :
+  forall (s : str), parse_template ([123; 109; 97; 112; 58; 123; 97; 112; 112; 101; 110; 100; 58] ++ esc s ++ [125; 125])%N = Ok ([Map [Append s]], false).
+Proof. exact append_in_map. Qed.
+Check C11_append_in_map :
+  forall (s : str), parse_template ([123; 109; 97; 112; 58; 123; 97; 112; 112; 101; 110; 100; 58] ++ esc s ++ [125; 125])%N = Ok ([Map [Append s]], false).
+Print Assumptions C11_append_in_map.
+
+Theorem C11_prepend_in_map :
+  forall (s : str), parse_template ([123; 109; 97; 112; 58; 123; 112; 114; 101; 112; 101; 110; 100; 58] ++ esc s ++ [125; 125])%N = Ok ([Map [Prepend s]], false).
+Proof. exact prepend_in_map. Qed.
+Check C11_prepend_in_map :
+  forall (s : str), parse_template ([123; 109; 97; 112; 58; 123; 112; 114; 101; 112; 101; 110; 100; 58] ++ esc s ++ [125; 125])%N = Ok ([Map [Prepend s]], false).
+Print Assumptions C11_prepend_in_map.
+
+Theorem C11_surround_in_map :
+  forall (s : str), parse_template ([123; 109; 97; 112; 58; 123; 115; 117; 114; 114; 111; 117; 110; 100; 58] ++ esc s ++ [125; 125])%N = Ok ([Map [Surround s]], false).
+Proof. exact surround_in_map. Qed.
+Check C11_surround_in_map :
+  forall (s : str), parse_template ([123; 109; 97; 112; 58; 123; 115; 117; 114; 114; 111; 117; 110; 100; 58] ++ esc s ++ [125; 125])%N = Ok ([Map [Surround s]], false).
+Print Assumptions C11_surround_in_map.
+
+Theorem C11_quote_in_map :
+  forall (s : str), parse_template ([123; 109; 97; 112; 58; 123; 113; 117; 111; 116; 101; 58] ++ esc s ++ [125; 125])%N = Ok ([Map [Surround s]], false).
+Proof. exact quote_in_map. Qed.
+Check C11_quote_in_map :
+  forall (s : str), parse_template ([123; 109; 97; 112; 58; 123; 113; 117; 111; 116; 101; 58] ++ esc s ++ [125; 125])%N = Ok ([Map [Surround s]], false).
+Print Assumptions C11_quote_in_map.
+
+Theorem C11_join_in_map :
+  forall (s : str), parse_template ([123; 109; 97; 112; 58; 123; 106; 111; 105; 110; 58] ++ esc s ++ [125; 125])%N = Ok ([Map [Join s]], false).
+Proof. exact join_in_map. Qed.
+Check C11_join_in_map :
+  forall (s : str), parse_template ([123; 109; 97; 112; 58; 123; 106; 111; 105; 110; 58] ++ esc s ++ [125; 125])%N = Ok ([Map [Join s]], false).
+Print Assumptions C11_join_in_map.
+
+(* the observe_at identity as a theorem: format(`{append:ESC(s)}`, x) = x + s, through
+   the single-block check, the parser, the template object and the interpreter *)
+Theorem C11_user_level_append :
+  forall (E : Env), L1 replace_meta E -> forall (s x : str),
+  bind (template_parse ([123; 97; 112; 112; 101; 110; 100; 58] ++ esc s ++ [125])%N) (fun t => run_pure (impl_format E t x)) = Ok (x ++ s).
+Proof. exact append_escaped_roundtrip. Qed.
+Check C11_user_level_append :
+  forall (E : Env), L1 replace_meta E -> forall (s x : str),
+  bind (template_parse ([123; 97; 112; 112; 101; 110; 100; 58] ++ esc s ++ [125])%N) (fun t => run_pure (impl_format E t x)) = Ok (x ++ s).
+Print Assumptions C11_user_level_append.
+
+Theorem C11_user_level_prepend :
+  forall (E : Env), L1 replace_meta E -> forall (s x : str),
+  bind (template_parse ([123; 112; 114; 101; 112; 101; 110; 100; 58] ++ esc s ++ [125])%N) (fun t => run_pure (impl_format E t x)) = Ok (s ++ x).
+Proof. exact prepend_escaped_roundtrip. Qed.
+Check C11_user_level_prepend :
+  forall (E : Env), L1 replace_meta E -> forall (s x : str),
+  bind (template_parse ([123; 112; 114; 101; 112; 101; 110; 100; 58] ++ esc s ++ [125])%N) (fun t => run_pure (impl_format E t x)) = Ok (s ++ x).
+Print Assumptions C11_user_level_prepend.
+
+Theorem C11_user_level_surround :
+  forall (E : Env), L1 replace_meta E -> forall (s x : str),
+  bind (template_parse ([123; 115; 117; 114; 114; 111; 117; 110; 100; 58] ++ esc s ++ [125])%N) (fun t => run_pure (impl_format E t x)) = Ok (s ++ x ++ s).
+Proof. exact surround_escaped_roundtrip. Qed.
+Check C11_user_level_surround :
+  forall (E : Env), L1 replace_meta E -> forall (s x : str),
+  bind (template_parse ([123; 115; 117; 114; 114; 111; 117; 110; 100; 58] ++ esc s ++ [125])%N) (fun t => run_pure (impl_format E t x)) = Ok (s ++ x ++ s).
+Print Assumptions C11_user_level_surround.
+
+Theorem C11_user_level_quote :
+  forall (E : Env), L1 replace_meta E -> forall (s x : str),
+  bind (template_parse ([123; 113; 117; 111; 116; 101; 58] ++ esc s ++ [125])%N) (fun t => run_pure (impl_format E t x)) = Ok (s ++ x ++ s).
+Proof. exact quote_escaped_roundtrip. Qed.
+Check C11_user_level_quote :
+  forall (E : Env), L1 replace_meta E -> forall (s x : str),
+  bind (template_parse ([123; 113; 117; 111; 116; 101; 58] ++ esc s ++ [125])%N) (fun t => run_pure (impl_format E t x)) = Ok (s ++ x ++ s).
+Print Assumptions C11_user_level_quote.
 
 (* the decoder regenerated from parser.rs works on characters (not bytes) with
    exactly the three control-character escapes *)
